@@ -26,6 +26,18 @@ class HarnessChildError(Exception):
     pass
 
 
+_SCRATCH = None
+
+
+def scratch_dir():
+    global _SCRATCH
+    if _SCRATCH is None:
+        base = os.path.join(os.path.dirname(os.path.dirname(os.path.abspath(__file__))), "out", "scratch")
+        os.makedirs(base, exist_ok=True)
+        _SCRATCH = base
+    return _SCRATCH
+
+
 def fork_call(fn, timeout=60.0):
     r, w = os.pipe()
     pid = os.fork()
@@ -33,6 +45,7 @@ def fork_call(fn, timeout=60.0):
         code = 0
         try:
             os.close(r)
+            os.chdir(scratch_dir())     # anything that escapes the simulated device lands in a scratch directory
             try:
                 data = pickle.dumps(("ok", fn()), protocol=4)
             except BaseException:
